@@ -167,28 +167,70 @@ def fl(Mx):
 
 # ------------------------------------------------------------------ interactive driver
 
+class DriverDead(Exception):
+    """The Lean driver process cannot be started or died (and no fallback is left)."""
+
+
+class DriverFail(Exception):
+    pass
+
+
 class Driver:
-    def __init__(self, name="C14"):
+    """Interactive line driver.  `fallback` names a second driver file (hand-written model only) that takes over —
+    at start-up or in the middle of a run — when the primary one cannot run (e.g. a generated module no longer builds);
+    the request that hit the dead process is re-sent, so no case is lost and a broken pipe never aborts the run."""
+
+    def __init__(self, name="C14", fallback=None, ctx=None):
+        self.name, self.fallback, self.ctx = name, fallback, ctx
+        self.n = 0
+        self.p = None
+        self._start(name)
+
+    def _start(self, name):
+        self.name = name
         self.p = subprocess.Popen(["lake", "env", "lean", "--run", f"drivers/{name}.lean"], cwd=C.LEAN_DIR,
                                   stdin=subprocess.PIPE, stdout=subprocess.PIPE, stderr=subprocess.PIPE,
                                   text=True, bufsize=1)
-        self.n = 0
 
-    def ask(self, line):
-        """Returns list of matrices (lists of lists of Fractions) or raises RuntimeError."""
-        self.p.stdin.write(line + "\n")
-        self.p.stdin.flush()
-        self.n += 1
+    def _ask(self, line):
+        try:
+            self.p.stdin.write(line + "\n")
+            self.p.stdin.flush()
+        except (BrokenPipeError, OSError, ValueError) as e:
+            raise DriverDead(f"driver {self.name}: {e!r}; stderr={self._stderr()}")
         while True:
             rep = self.p.stdout.readline()
             if rep == "":
-                err = self.p.stderr.read()
-                raise RuntimeError(f"driver died: {err[-1500:]}")
+                raise DriverDead(f"driver {self.name} died: {self._stderr()}")
             rep = rep.rstrip("\n")
             if rep.startswith("ok") or rep.startswith("fail"):
-                break
+                return rep
             if not C._is_lean_diag(rep):
+                if "error" in rep:
+                    raise DriverDead(f"driver {self.name}: {rep[:300]}")
                 raise RuntimeError(f"driver: unexpected output {rep[:300]}")
+
+    def _stderr(self):
+        try:
+            self.p.kill()
+            return (self.p.stdout.read() + self.p.stderr.read())[-1200:]
+        except Exception:
+            return ""
+
+    def ask(self, line):
+        """Returns list of matrices (lists of lists of Fractions); raises DriverFail on a `fail …` reply and DriverDead
+        when neither the driver nor its fallback runs."""
+        try:
+            rep = self._ask(line)
+        except DriverDead as e:
+            if not self.fallback:
+                raise
+            if self.ctx is not None:
+                self.ctx.broke("correspondence", f"driver-{self.name}-does-not-run", str(e)[-800:])
+            fb, self.fallback = self.fallback, None
+            self._start(fb)
+            rep = self._ask(line)
+        self.n += 1
         if rep.startswith("fail"):
             raise DriverFail(rep)
         t = rep.split()[1:]
@@ -203,26 +245,19 @@ class Driver:
             self.p.stdin.close()
             self.p.wait(timeout=30)
         except Exception:
-            self.p.kill()
-
-
-class DriverFail(Exception):
-    pass
+            try:
+                self.p.kill()
+            except Exception:
+                pass
 
 
 def open_driver(ctx):
-    """The C14 driver evaluates the code path through the GENERATED definitions; when those no longer compile the
-    hand-written fallback driver keeps the closed-form oracle available for the failing-input search."""
-    drv = Driver("C14")
-    try:
-        drv.ask("DM 1 1 1 2")
-        return drv
-    except Exception as e:
-        drv.close()
-        ctx.broke("correspondence", "generated-driver-does-not-run", str(e)[-800:])
-        drv = Driver("C14spec")
-        drv.ask("DM 1 1 1 2")
-        return drv
+    """The C14 driver evaluates the code path through the GENERATED definitions; when it cannot run (at start-up or
+    later) the hand-written fallback driver `C14spec` keeps the closed-form oracle available, so every case is still
+    judged against the specification."""
+    drv = Driver("C14", fallback="C14spec", ctx=ctx)
+    drv.ask("DM 1 1 1 2")
+    return drv
 
 
 def sc(m):
@@ -472,6 +507,7 @@ PATTERNS = [
     ("2d", [2, 1], [2, 3], [], []),
     ("2d-x", [3], [3], [2, 1], []),
     ("all", [2], [2], [2], [2]),
+    ("3d", [2, 1, 1], [2, 1, 2], [2, 1], []),
 ]
 
 
@@ -492,42 +528,110 @@ def expand_inputs(x, Z):
     return x.expand(*bs, *x.shape[-2:]), Z.expand(*bs, *Z.shape[-2:])
 
 
+def build_basic(cfg, rng):
+    """Model + variational distribution + inputs of one basic configuration (all randomness from rng)."""
+    import torch
+    torch.manual_seed(rng.torch_seed())
+    pname, zb, pb, xb, kb = next(p for p in PATTERNS if p[0] == cfg["pattern"])
+    M, n, d = cfg["M"], cfg["n"], cfg["d"]
+    Z = spread_points([*zb, M, d], rng)
+    model, dist = make_gp(dict(cfg, kb=kb), Z, cfg["dist"], pb)
+    vs = model.variational_strategy
+    if cfg.get("x_eq_z") == "alias":
+        x = vs.inducing_points            # the very same tensor object (same data_ptr), not an equal-valued copy
+    elif cfg.get("x_eq_z"):
+        x = Z.clone()
+    else:
+        x = spread_points([*xb, n, d], rng, lo=-2.5, hi=2.5, min_dist=0.2)
+    randomize_hypers(model, rng)
+    vs.variational_params_initialized.fill_(1)
+    randomize_dist(dist, rng)
+    return model, dist, x
+
+
+def apply_history(ctx, cfg, model, x, rng, drv=None, dist=None):
+    """Op-then-use histories before the observed calls.  The closed form is always that of the parameters the model
+    holds *now*; an eval-mode model that was already called has memoised q(u), p(u) and chol(Kzz)."""
+    import torch
+    h = cfg.get("history")
+    if not h:
+        return
+    vs = model.variational_strategy
+
+    def call(mode, xx):
+        model.train(mode == "train")
+        with torch.no_grad():
+            o = model(xx)
+            o.mean.sum().item()
+            o.variance.sum().item()
+            vs.kl_divergence()
+    if h == "second-x":
+        # an earlier eval-mode call with other inputs (different n, extra batch dimension)
+        x2 = spread_points([2, cfg["n"] + 1, cfg["d"]], rng, lo=-2.5, hi=2.5, min_dist=0.2)
+        call("eval", x2)
+        return
+    if h.startswith("load"):
+        if "train-first" in h:
+            call("train", x)
+        call("eval", x)
+        other, _, _ = build_basic(dict(cfg, x_eq_z=False), C.Rng(f"{C.seed()}:{cfg.get('rng_label')}:other"))
+        sd = other.state_dict()
+        if "old-format" in h:
+            # checkpoint written before the whitened parameterisation: no `updated_strategy` flag; its variational
+            # parameters describe q(u) = N(m, S) itself and are converted to whitened ones on the next call
+            sd = {k: v for k, v in sd.items() if not k.endswith("updated_strategy")}
+            import warnings
+            with warnings.catch_warnings():
+                warnings.simplefilter("ignore")
+                model.load_state_dict(sd)
+            out_batch = torch.broadcast_shapes(vs.inducing_points.shape[:-2], x.shape[:-2], dist.batch_shape)
+            stash = {idx: exact_dist(drv, dist, idx) for idx in itertools.product(*[range(k) for k in out_batch])}
+            ctx.count(f"history:{h}")
+            return stash
+        if "partial" in h:
+            # everything of the strategy (parameters and buffers), none of the kernel / mean hyper-parameters
+            sd = {k: v for k, v in sd.items() if k.startswith("variational_strategy.")}
+            model.load_state_dict(sd, strict=False)
+        elif "child" in h:
+            # checkpoint of the strategy only, loaded on the child module
+            pre = "variational_strategy."
+            vs.load_state_dict({k[len(pre):]: v for k, v in sd.items() if k.startswith(pre)})
+        else:
+            model.load_state_dict(sd)
+        ctx.count(f"history:{h}")
+        return
+    raise RuntimeError(f"unknown history {h}")
+
+
 def run_basic(ctx, drv, cfg, rng, replay_only=None):
     """VariationalStrategy / UnwhitenedVariationalStrategy: eval (mean, cov, KL) and train (mean, var, KL)."""
     import torch
     import gpytorch
-    torch.manual_seed(rng.torch_seed())
     strat = cfg["strategy"]
     whitened = strat == "VariationalStrategy"
     pname, zb, pb, xb, kb = next(p for p in PATTERNS if p[0] == cfg["pattern"])
-    M, n, d = cfg["M"], cfg["n"], cfg["d"]
-    Z = spread_points([*zb, M, d], rng)
-    if cfg.get("x_eq_z"):
-        x = Z.clone()
-        n = M
-    else:
-        x = spread_points([*xb, n, d], rng, lo=-2.5, hi=2.5, min_dist=0.2)
-    model, dist = make_gp(dict(cfg, kb=kb), Z, cfg["dist"], pb)
+    M, d = cfg["M"], cfg["d"]
+    model, dist, x = build_basic(cfg, rng)
+    n = x.shape[-2]
     vs = model.variational_strategy
-    randomize_hypers(model, rng)
-    vs.variational_params_initialized.fill_(1)
-    randomize_dist(dist, rng)
+    old_q = apply_history(ctx, cfg, model, x, rng, drv, dist)
     eps = F(vs.jitter_val)
     results = {}
-    for mode in ("eval", "train"):
-        model.train(mode == "train")
-        with torch.no_grad():
-            kl_before = vs.kl_divergence().detach().clone() if mode == "eval" else None
-            out = model(x)
-            mean = out.mean.detach().clone()
-            if mode == "eval":
-                cov = out.covariance_matrix.detach().clone()
-                var = None
-            else:
-                cov = None
-                var = out.variance.detach().clone()
-            kl = vs.kl_divergence().detach().clone()
-        results[mode] = (mean, cov, var, kl, kl_before)
+    with gpytorch.settings.trace_mode(bool(cfg.get("trace_mode", False))):
+        for mode in ("eval", "train"):
+            model.train(mode == "train")
+            with torch.no_grad():
+                kl_before = vs.kl_divergence().detach().clone() if mode == "eval" else None
+                out = model(x)
+                mean = out.mean.detach().clone()
+                if mode == "eval":
+                    cov = out.covariance_matrix.detach().clone()
+                    var = None
+                else:
+                    cov = None
+                    var = out.variance.detach().clone()
+                kl = vs.kl_divergence().detach().clone()
+            results[mode] = (mean, cov, var, kl, kl_before)
     xx, Zx = expand_inputs(x, vs.inducing_points.detach())
     Kzz, Kzx, Kxx, mX, mZ = joint_blocks(model, Zx, xx, M)
     out_batch = tuple(results["eval"][0].shape[:-1])
@@ -542,7 +646,8 @@ def run_basic(ctx, drv, cfg, rng, replay_only=None):
         kt_f = np.array(fl(add_jit(kzz, eps)))
         kappa = float(np.linalg.cond(kt_f))
         desc = f"{strat}/{cfg['dist']} pattern={pname} M={M} n={n} d={d} kernel={cfg.get('kernel','rbf')} " \
-               f"mean={cfg.get('mean','const')} jitter={cfg.get('jitter')} x_eq_z={bool(cfg.get('x_eq_z'))} idx={list(idx)}"
+               f"mean={cfg.get('mean','const')} jitter={cfg.get('jitter')} x_eq_z={cfg.get('x_eq_z', False)} " \
+               f"trace_mode={bool(cfg.get('trace_mode'))} history={cfg.get('history')} idx={list(idx)}"
         if kappa > COND_MAX:
             ctx.count("discarded_ill_conditioned")
             continue
@@ -566,7 +671,7 @@ def run_basic(ctx, drv, cfg, rng, replay_only=None):
             kt = add_jit(kzz, eps)
             L = hp_chol(kt)
             rep = drv.ask(f"W {Mi} {n} {toks(kzz)} {toks(kzx)} {toks(kxx)} {toks(mx)} {C.rat_str(eps)} {C.rat_str(eps)} "
-                          f"{toks(L)} {toks(m)} {toks(S)} {hasS}")
+                          f"{toks(L)} {toks(m)} {toks(S)} {hasS + 2 * int(bool(cfg.get('trace_mode')))}")
             cmean, ccov, fmean, fcov, resid, klw, detSw, klu, detS, detKt, quadw, quadu = rep
             model_gap = max(max(abs(a - b) for ra, rb in zip(X, Y) for a, b in zip(ra, rb))
                             for X, Y in ((cmean, fmean), (ccov, fcov)))
@@ -583,6 +688,14 @@ def run_basic(ctx, drv, cfg, rng, replay_only=None):
                 klx = kl_delta(sc(quadw), Fraction(1), Mi)
             train_var = [ccov[i][i] for i in range(n)]
             kl_train = klx
+            if old_q is not None:
+                # old-format checkpoint: the loaded (m, S) are q(u) itself; closed form of the unwhitened description
+                m0, S0, R0, h0 = old_q[tuple(idx)]
+                exo = exact_unwhitened(ctx, drv, desc, kzz, kzx, kxx, mx, mz, eps, eps, m0, S0, R0, h0)
+                fmean = exo["mean"]
+                fcov = add_jit(exo["cov"], eps)
+                train_var = [fcov[i][i] for i in range(n)]
+                klx = kl_train = exo["kl"]
         else:
             exu = exact_unwhitened(ctx, drv, desc, kzz, kzx, kxx, mx, mz, eps, eps, m, S, R, hasS)
             if cfg.get("x_eq_z"):
@@ -601,7 +714,8 @@ def run_basic(ctx, drv, cfg, rng, replay_only=None):
         dshort = cfg['dist'].replace('VariationalDistribution', '')
         if whitened:
             cmp_.scalar("eval.kl", float(bget(kl, idx, 0)), klx, scale=max(1.0, abs(klx)))
-            cmp_.scalar("eval.kl(before first call)", float(bget(kl_before, idx, 0)), klx, scale=max(1.0, abs(klx)))
+            if old_q is None:     # (before the first call an old-format checkpoint is not yet converted)
+                cmp_.scalar("eval.kl(before first call)", float(bget(kl_before, idx, 0)), klx, scale=max(1.0, abs(klx)))
         else:
             for what, t in (("eval.kl", kl), ("eval.kl(before first call)", kl_before)):
                 report_kl(ctx, cmp_, what, float(bget(t, idx, 0)), klx, kl_code,
@@ -638,16 +752,18 @@ def max_gap(pairs):
     return max(max([abs(a - b) for ra, rb in zip(X, Y) for a, b in zip(ra, rb)] + [Fraction(0)]) for X, Y in pairs)
 
 
-def exact_whitened(ctx, drv, desc, kzz, kzx, kxx, mx, eps, epsx, m, S, hasS, root="chol"):
+def exact_whitened(ctx, drv, desc, kzz, kzx, kxx, mx, eps, epsx, m, S, hasS, root="chol", trace=False):
     """Closed form for a whitened strategy; L = Cholesky factor (or symmetric root for CIQ) of K̃."""
     kt = add_jit(kzz, eps)
     L = hp_chol(kt) if root == "chol" else hp_sym_sqrt(kt)
     Mi, n = len(m), len(mx)
     rep = drv.ask(f"W {Mi} {n} {toks(kzz)} {toks(kzx)} {toks(kxx)} {toks(mx)} {C.rat_str(eps)} {C.rat_str(epsx)} "
-                  f"{toks(L)} {toks(m)} {toks(S)} {hasS}")
+                  f"{toks(L)} {toks(m)} {toks(S)} {hasS + 2 * int(bool(trace))}")
     cmean, ccov, fmean, fcov, resid, klw, detSw, klu, detS, detKt, quadw, quadu = rep
     if float(max_gap(((cmean, fmean), (ccov, fcov)))) > 1e-40 or float(sc(resid)) > 1e-60:
-        ctx.broke("correspondence", "model-codepath-vs-closedform", f"{desc}: resid {float(sc(resid))}")
+        ctx.broke("correspondence", "model-codepath-vs-closedform",
+                  f"{desc}: generated code path (trace_mode={bool(trace)}) vs closed form gap "
+                  f"{float(max_gap(((cmean, fmean), (ccov, fcov))))}, resid {float(sc(resid))}")
     if hasS:
         kl = kl_mvn(sc(klw), sc(detSw), Fraction(1))
     else:
@@ -745,7 +861,9 @@ def run_ciq(ctx, drv, cfg, rng, replay_only=None):
         ex = exact_whitened(ctx, drv, desc, kzz, kzx, kxx, mx, eps, eps if ngd else 2 * eps, m, S, hasS, root="sym")
         key = f"CiqVariationalStrategy:{cfg['dist'].replace('VariationalDistribution', '')}"
         cmp_ = Cmp(ctx, key, desc, {"cfg": cfg, "idx": list(idx), "runner": "ciq"}, kappa, M + n)
-        cmp_.slack = max(cmp_.slack, 1e-7)       # numerical-only comparison (contour-integral quadrature)
+        # numerical-only comparison: contour-integral quadrature; the NGD branch additionally solves with linear_cg
+        # (its accuracy, ~1e-7 observed, is linear_operator's — an assumption, not a property of gpytorch's algebra)
+        cmp_.slack = max(cmp_.slack, 1e-5 if ngd else 1e-7)
         kscale = max([1.0] + [abs(float(v)) for row in kxx for v in row])
         for mode in ("eval", "train"):
             mean, cov, var, kl = res[mode]
@@ -1400,6 +1518,33 @@ def basic_configs(ctx):
             cfgs.append({"strategy": strat, "dist": dist, "pattern": "none", "M": rng.randint(2, 6), "n": 0,
                          "d": 2, "kernel": "rbf", "mean": "const", "jitter": 1e-10 if strat.startswith("Unwh") else None,
                          "x_eq_z": True})
+    # rarely used branch: gpytorch.settings.trace_mode (dense arithmetic instead of lazy operators)
+    for dist in DISTS:
+        for pat in (["none", "Z+params"] if quick else [p_[0] for p_ in PATTERNS]):
+            cfgs.append({"strategy": "VariationalStrategy", "dist": dist, "pattern": pat, "M": rng.randint(2, 5),
+                         "n": rng.randint(2, 5), "d": rng.choice([1, 2]), "kernel": rng.choice(["rbf", "matern"]),
+                         "mean": rng.choice(["const", "linear"]), "jitter": rng.choice([None, 1e-10]), "trace_mode": True})
+    # op-then-use histories: the model was already used (memoised q(u), p(u), chol(Kzz)) before the observed calls
+    hists = ["load", "load-partial", "load-train-first", "load-child", "second-x"]
+    for pat in (["none"] if quick else ["none", "params", "Z+params"]):
+        cfgs.append({"strategy": "VariationalStrategy", "dist": DISTS[0], "pattern": pat, "M": rng.randint(2, 5),
+                     "n": rng.randint(2, 5), "d": rng.choice([1, 2]), "kernel": "matern", "mean": "const", "jitter": None,
+                     "history": "load-old-format"})
+    for strat in ("VariationalStrategy", "UnwhitenedVariationalStrategy"):
+        for k, dist in enumerate(DISTS):
+            for h in ([hists[k % len(hists)], hists[(k + 2) % len(hists)]] if quick else hists):
+                cfgs.append({"strategy": strat, "dist": dist, "pattern": rng.choice(["none", "params", "Z+params"]),
+                             "M": rng.randint(2, 5), "n": rng.randint(2, 5), "d": rng.choice([1, 2]),
+                             "kernel": rng.choice(["rbf", "matern"]), "mean": "const", "jitter": None, "history": h,
+                             "trace_mode": (not quick) and strat == "VariationalStrategy" and rng.random() < 0.3})
+    # aliasing: x is the inducing-point tensor itself; legal-but-unusual: jitter_val = 0.0
+    for strat in ("VariationalStrategy", "UnwhitenedVariationalStrategy"):
+        cfgs.append({"strategy": strat, "dist": DISTS[0], "pattern": "none", "M": rng.randint(2, 5), "n": 0, "d": 2,
+                     "kernel": "matern", "mean": "const", "jitter": 1e-10 if strat.startswith("Unwh") else None,
+                     "x_eq_z": "alias"})
+        for dist in (DISTS[:2] if quick else DISTS):
+            cfgs.append({"strategy": strat, "dist": dist, "pattern": "none", "M": rng.randint(2, 4), "n": rng.randint(2, 4),
+                         "d": 2, "kernel": "matern", "mean": "zero", "jitter": 0.0})
     if not quick:
         for _ in range(300):
             cfgs.append({"strategy": rng.choice(["VariationalStrategy", "UnwhitenedVariationalStrategy"]),
@@ -1424,8 +1569,12 @@ def guarded(ctx, drv, runner, cfg):
             who = cfg.get("strategy") or cfg.get("base") or runner
             ctx.fail(f"{runner}:{who}/raises", f"{runner} {cfg}: real code raised {type(e).__name__}: {str(e)[:200]}",
                      {"cfg": cfg, "runner": runner, "idx": None})
+        elif isinstance(e, DriverDead):
+            raise                      # neither the generated nor the hand-written driver runs: nothing can be judged
         else:
-            raise
+            ctx.count("harness_errors")
+            if ctx.counters.get("harness_errors", 0) <= 3:
+                ctx.broke("correspondence", f"harness-error:{runner}", tb[-1500:])
 
 
 def correspondence(ctx):
@@ -1444,6 +1593,36 @@ def correspondence(ctx):
     ctx.notes["worst_relative_error"] = _state.get("worst", 0.0)
     ctx.notes["worst_relative_error_ciq"] = _state.get("worst_ciq", 0.0)
     ctx.notes["driver_requests"] = drv.n
+
+
+def search(ctx, broken):
+    """A proof / the translator / the generated driver broke and the regular generators found no failing input: widen
+    to the thorough-tier generators (every batch pattern under trace_mode, every history for every distribution, all
+    wrappers for all distributions).  The oracle is the hand-written closed form (`closedForm`, certified inverses);
+    it does not depend on the generated definitions, and `open_driver` falls back to the hand-written driver when the
+    generated one does not run."""
+    if ctx.failures:
+        return
+    import torch
+    import warnings
+    torch.set_num_threads(2)
+    warnings.simplefilter("ignore")
+    tier = ctx.tier
+    ctx.tier = "thorough"
+    try:
+        jobs = [("basic", c) for c in basic_configs(ctx) if c.get("trace_mode") or c.get("history") or c.get("x_eq_z")
+                or c.get("jitter") == 0.0] + extra_configs(ctx)
+    finally:
+        ctx.tier = tier
+    drv = open_driver(ctx)
+    try:
+        for i, (runner, cfg) in enumerate(jobs):
+            cfg["rng_label"] = f"search:{runner}:{i}"
+            guarded(ctx, drv, runner, cfg)
+            if len(ctx.failures) > 40:
+                break
+    finally:
+        drv.close()
 
 
 def replay(ctx, payload):
